@@ -160,7 +160,7 @@ fn nested_scalar(f: Fmt, shape: Shape, d: usize, core: Option<bool>) -> Vec<u8> 
 /// other headers than the one-entry fix markers: 16- and 32-bit length headers,
 /// and collections of 16 entries (the nested child among 15 scalar siblings).
 /// The count of collections around the scalar is still exactly `d`.
-pub const MSGPACK_STYLES: [&str; 7] = ["hdr16", "hdr32", "wide_deepest", "wide_outermost", "wide_random", "very_wide_outermost", "very_wide_deepest"];
+pub const MSGPACK_STYLES: [&str; 9] = ["hdr16", "hdr32", "wide_deepest", "wide_outermost", "wide_random", "very_wide_outermost", "very_wide_deepest", "half_of_16_bits_outermost", "most_of_16_bits_deepest"];
 
 pub fn nested_msgpack_styled(shape: Shape, d: usize, style: &str) -> Vec<u8> {
     let mut rng = Rng::new(match shape {
@@ -181,6 +181,9 @@ pub fn nested_msgpack_styled(shape: Shape, d: usize, style: &str) -> Vec<u8> {
             // more siblings than the depth limit has levels
             "very_wide_outermost" if i == 0 => (1, 1100, 1099),
             "very_wide_deepest" if i + 1 == d => (1, 1100, 0),
+            // entry counts in the upper half of what a 16-bit header holds (twice the count no longer fits 16 bits)
+            "half_of_16_bits_outermost" if i == 0 => (1, 32768, 32767),
+            "most_of_16_bits_deepest" if i + 1 == d => (1, 50000, 0),
             "wide_random" => match srng.below(6) {
                 0 => (1, 16 + srng.below(3), srng.below(16)),
                 1 => (2, 16, srng.below(16)),
@@ -200,9 +203,10 @@ pub fn nested_msgpack_styled(shape: Shape, d: usize, style: &str) -> Vec<u8> {
         }
         let sibling = |k: usize, out: &mut Vec<u8>| {
             if !*a {
-                // distinct five-byte keys k0000, k0001, ...
-                out.push(0xa5);
-                out.extend_from_slice(format!("k{k:04}").as_bytes());
+                // distinct short keys k0000, k0001, ...
+                let key = format!("k{k:04}");
+                out.push(0xa0 | key.len() as u8);
+                out.extend_from_slice(key.as_bytes());
             }
             out.push(0x01);
         };
@@ -314,7 +318,7 @@ pub fn inproc(f: Fmt, shape: Shape, to: Fmt, thorough: bool, acc: &mut Acc) -> O
         }
         if f == Fmt::Msgpack && shape != Shape::KeyPosition && d >= 1 && d <= 100_000 {
             for st in MSGPACK_STYLES {
-                if st == "wide_random" && d > 10_000 {
+                if (st == "wide_random" && d > 10_000) || (st.contains("_of_16_bits_") && d > 1100) {
                     continue;
                 }
                 inputs.push((nested_msgpack_styled(shape, d, st), st));
@@ -524,7 +528,7 @@ pub fn run(ctx: &Ctx) -> i32 {
         }
     }
     size_hook(&mut acc, ctx.seed, ctx.size(20000, 400000));
-    let rule = format!("{} (source format, nesting shape, target) combinations: shapes arrays / maps / alternating / 2 random mixtures (+ key-position nesting for MessagePack; MessagePack documents also spelled with 16/32-bit length headers and with 16-entry collections on the deepest path; every JSON / MessagePack / YAML document also followed by a second, tiny document) x 4 targets; depths: a +-6 window around each format's limit (MessagePack 1024, JSON 128, YAML 128, TOML 80; YAML also in block style), 1000..1025, 10^4, 10^5{} ; at every depth slice vs reader(all) vs reader(fixed 7), explicit and detected, and (depths up to 2000) detected on a translator that has just translated a detected input of each format; the debug and release binaries (default stack; file and stdin, source format given or detected) at the limit, one beyond and far beyond; MessagePack size calculator vs the harness decoder on generated, padded and truncated values; distinct non-trivial = distinct combinations", work.len(), if thorough { ", 10^6 (3*10^4 for YAML)" } else { "" });
+    let rule = format!("{} (source format, nesting shape, target) combinations: shapes arrays / maps / alternating / 2 random mixtures (+ key-position nesting for MessagePack; MessagePack documents also spelled with 16/32-bit length headers and with 16-entry collections on the deepest path, and with one collection of 32 768 / 50 000 entries outermost or deepest; every JSON / MessagePack / YAML document also followed by a second, tiny document) x 4 targets; depths: a +-6 window around each format's limit (MessagePack 1024, JSON 128, YAML 128, TOML 80; YAML also in block style), 1000..1025, 10^4, 10^5{} ; at every depth slice vs reader(all) vs reader(fixed 7), explicit and detected, and (depths up to 2000) detected on a translator that has just translated a detected input of each format; the debug and release binaries (default stack; file and stdin, source format given or detected) at the limit, one beyond and far beyond; MessagePack size calculator vs the harness decoder on generated, padded and truncated values; distinct non-trivial = distinct combinations", work.len(), if thorough { ", 10^6 (3*10^4 for YAML)" } else { "" });
     ev::finish(
         Finish { ctx, level: "exploration", rule, assumptions: vec!["YAML depths are capped (parsing is quadratic in depth)".into(), "targets that refuse the document for another reason (TOML with an array root) are left out of the limit comparison".into()], extra, exhaustive: false, min_distinct: 40, must_reach: vec![("binary_status_matches_library".into(), 100), ("binary_runs_debug".into(), 50), ("binary_runs_with_detection".into(), 50), ("size_hook_cases".into(), 1000), ("inproc_msgpack".into(), 100), ("msgpack_styled_documents".into(), 500)] },
         acc,
